@@ -315,9 +315,11 @@ pub fn c02(ctx: &mut Ctx) {
             continue;
         }
         ctx.stats.messages_delivered += proofrun::scalar_count(&base.image);
+        // a hostile loop bound must end the run, not hang the batch (OVERWORK is "not accepted")
+        let limit = c17_budget(proofrun::scalar_count(&base.image), &base.layout).0 * 4;
         for (kind, fault) in mine {
             ctx.begin_run(scenario, unit);
-            let Some(m) = run_faults(base, std::slice::from_ref(&fault), u64::MAX) else {
+            let Some(m) = run_faults(base, std::slice::from_ref(&fault), limit) else {
                 ctx.stats.skip("fault-noop-or-illtyped");
                 continue;
             };
@@ -331,6 +333,21 @@ pub fn c02(ctx: &mut Ctx) {
                 ctx.stats.sample(json!({"base": base.name, "fault": fault, "outcome": m.run.outcome.describe()}));
             }
             if m.run.outcome.is_accept() {
+                if fault.path() == "config.n_queries" {
+                    // With de-duplicated queries a larger declared count whose extra samples all
+                    // collide with existing indices yields the *same* query set; the configuration
+                    // is not part of the transcript (Stone protocol), so this mutant cannot be
+                    // told apart. Classified separately so that any other accepted n_queries
+                    // mutant is still reported under its own class.
+                    let q0 = query_set_of_run(&base.layout, &base.image, base.security);
+                    let q1 = query_set_of_run(&base.layout, &m.image, base.security);
+                    if q0.is_some() && q0 == q1 {
+                        let class = "C02|accepted|n_queries-extra-samples-collide".to_string();
+                        let replay = replay_envelope("C02", scenario, &ctx.variant, replay_body(base, &[fault.clone()], "mutant-accepted", &m.run.outcome, json!({"replacement": kind, "query_set": q0})));
+                        ctx.violation(&class, &format!("{:?} on base {}: the extra query samples collide with existing indices, same query set", fault, base.name), replay);
+                        continue;
+                    }
+                }
                 if pow_fault_is_legit(&fault) {
                     // independently confirm with the reference PoW model on the unfaulted digest:
                     // cannot be done from outside; count and skip (probability <= 2^-20 per trial)
@@ -345,6 +362,38 @@ pub fn c02(ctx: &mut Ctx) {
     }
     // control: appended trailing elements are tolerated by the property; they must not be
     // counted as faults. (No check: either verdict is fine.)
+}
+
+/// The de-duplicated query index set of a run, reconstructed from the recorded transcript events
+/// (the squeezes after the last absorbed message) with the reference query model.
+pub fn query_set_of_run(layout: &str, image: &Value, security: Felt) -> Option<Vec<u64>> {
+    use swiftness_transcript::verif::{self, Event};
+    let proof: swiftness_stark::types::StarkProof = serde_json::from_value(image.clone()).ok()?;
+    verif::start_recording();
+    let _ = proofrun::run_proof(layout, &proof, security, u64::MAX);
+    let events = verif::take_events();
+    let last_absorb = events.iter().rposition(|e| matches!(e, Event::Absorb { .. }))?;
+    let cfg = &image["config"];
+    let log_eval = image::felt_of(&cfg["log_trace_domain_size"])? + image::felt_of(&cfg["log_n_cosets"])?;
+    let log_eval: u64 = log_eval.to_biguint().try_into().ok()?;
+    if log_eval > 63 {
+        return None;
+    }
+    let mut set: Vec<u64> = events[last_absorb + 1..]
+        .iter()
+        .filter_map(|e| match e {
+            Event::Squeeze { out, .. } => {
+                let b = out.to_bytes_be();
+                let mut lo = [0u8; 16];
+                lo.copy_from_slice(&b[16..]);
+                Some((u128::from_be_bytes(lo) & ((1u128 << log_eval) - 1)) as u64)
+            }
+            _ => None,
+        })
+        .collect();
+    set.sort();
+    set.dedup();
+    Some(set)
 }
 
 // ------------------------------------------------------------------------------------------
